@@ -547,3 +547,38 @@ def ensure_repo_on_path():
         sys.path.insert(0, REPO)
     import platypus  # noqa
     assert os.path.dirname(os.path.dirname(os.path.abspath(platypus.__file__))) == os.path.abspath(REPO), platypus.__file__
+
+
+# ----------------------------------------------------------------------------
+# watchdog for calls into pure-Python library code
+# ----------------------------------------------------------------------------
+class WatchdogTimeout(Exception):
+    pass
+
+
+class cpu_time_limit:
+    """Raises `exc` inside the running (pure-Python, main-thread) call when it has used `seconds` of CPU time
+    (ITIMER_VIRTUAL: a call that spins is caught however loaded the machine is, and a descheduled process is not
+    mistaken for a hang), with a wall-clock backstop of seconds*wall_factor for calls that block without computing."""
+
+    def __init__(self, seconds, exc=WatchdogTimeout, wall_factor=30):
+        self.seconds, self.exc, self.wall = float(seconds), exc, float(seconds) * wall_factor
+
+    def _raise(self, signum, frame):
+        raise self.exc()
+
+    def __enter__(self):
+        import signal
+        self.old_v = signal.signal(signal.SIGVTALRM, self._raise)
+        self.old_r = signal.signal(signal.SIGALRM, self._raise)
+        signal.setitimer(signal.ITIMER_VIRTUAL, self.seconds)
+        signal.setitimer(signal.ITIMER_REAL, self.wall)
+        return self
+
+    def __exit__(self, *a):
+        import signal
+        signal.setitimer(signal.ITIMER_VIRTUAL, 0)
+        signal.setitimer(signal.ITIMER_REAL, 0)
+        signal.signal(signal.SIGVTALRM, self.old_v)
+        signal.signal(signal.SIGALRM, self.old_r)
+        return False
